@@ -320,9 +320,15 @@ def gen_upaths(rng, tree, root):
     return cands
 
 
-CREATE_NAMES = ["new", "a/b", "..", ".", " ", "../x", "/abs", "lnk", "l2", "link", "ldir", "c1", "a", "b", "sp ace", "ünï",
+# compatibility characters that become '/', '.', '..', '\\', blanks or ASCII under NFKC/NFKD (and
+# precomposed/decomposed pairs for NFC/NFD): a file name must be taken as it is, never re-spelled
+UNICODE_NAMES = ["\u2024\u2024\uff0foutside\uff0fmoved", "\uff0e\uff0e\uff0f\uff0e\uff0e\uff0fx", "a\uff0fb", "\u2024\u2024",
+                 "\uff0e\uff0e", "\uff0e", "\u2024", "\ufe52\ufe52\uff0fx", "\uff3cback\uff3c", "\u3000", "\u00a0", "\u3000x\u3000",
+                 "sub\uff0fnew", "\uff0fabs", "\u2025\uff0foutside\uff0fy", "cafe\u0301", "caf\u00e9", "\u212b", "\ufb01", "\uff11",
+                 "\u2215x", "\u2044y", "\u2400"]
+CREATE_NAMES = UNICODE_NAMES + ["new", "a/b", "..", ".", " ", "../x", "/abs", "lnk", "l2", "link", "ldir", "c1", "a", "b", "sp ace", "ünï",
                 "x" * 300, "nul\x00byte", "a.m3u8", ".hidden", "sub"]
-RENAME_NAMES = ["Re/named", "Re/named", "plain", "..", " .. ", ".", " . ", "../x", "../../x", "/etc/x", "..|..",
+RENAME_NAMES = UNICODE_NAMES + ["Re/named", "Re/named", "plain", "..", " .. ", ".", " . ", "../x", "../../x", "/etc/x", "..|..",
                 "outside", "../outside", "a.b", " ", "sub", "x" * 300]
 
 
